@@ -108,13 +108,18 @@ ExpandCases(shape, target) ==
              \o (IF a.must = "value" /\ a.value[1].shape # target THEN <<"two_way">> ELSE <<>>)))
 
 \* ---- dtype sweep: the same five requests for each of the 14 element types
-DtypeCases(dt) ==
-   LET X == Iota(dt, <<2, 3>>, 0) Y == Iota(dt, <<2, 1>>, 50) IN
+DtypeCasesXY(dt, X, Y) ==
    /\ P(CaseRec("dtypes", "Transpose", <<AIs("perm", <<1, 0>>)>>, <<X>>, SemTranspose(X, <<AIs("perm", <<1, 0>>)>>), <<dt>>))
    /\ P(CaseRec("dtypes", "Concat", <<AI("axis", -1)>>, <<X, Y>>, SemConcat(<<X, Y>>, <<AI("axis", -1)>>), <<dt>>))
    /\ P(CaseRec("dtypes", "Slice", <<>>, <<X, I64(<<1>>), I64(<<3>>), I64(<<1>>)>>, SemSliceInts(X, <<1>>, <<3>>, <<1>>, <<1>>), <<dt>>))
    /\ P(CaseRec("dtypes", "Gather", <<AI("axis", 1)>>, <<X, I64(<<2, 0>>)>>, SemGather(X, I64(<<2, 0>>), <<AI("axis", 1)>>), <<dt>>))
    /\ P(CaseRec("dtypes", "Expand", <<>>, <<Y, I64(<<2, 2, 3>>)>>, SemExpand(Y, I64(<<2, 2, 3>>)), <<dt>>))
+DtypeCases(dt) == DtypeCasesXY(dt, Iota(dt, <<2, 3>>, 0), Iota(dt, <<2, 1>>, 50))
+\* the operators move bit patterns: NaN, infinities, the sign of zero and extreme integers arrive unchanged (compared bit for bit)
+SpecialValueCases ==
+   /\ \A dt \in {"f32", "f64"} : DtypeCasesXY(dt \o "_special", T(dt, <<2, 3>>, <<NZ, NaN, PInf, NInf, FMax, Fin(0)>>), T(dt, <<2, 1>>, <<NMax, NZ>>))
+   /\ \A dt \in {"i8", "i64"} : DtypeCasesXY(dt \o "_special", T(dt, <<2, 3>>, <<IMinS, IMaxS, Fin(-1), Fin(0), Sym(1, 1), Sym(1, -2)>>), T(dt, <<2, 1>>, <<IMaxS, IMinS>>))
+   /\ \A dt \in {"u8", "u64"} : DtypeCasesXY(dt \o "_special", T(dt, <<2, 3>>, <<IMaxU, Sym(1, 0), Fin(0), Sym(1, -1), Fin(-2), Fin(1)>>), T(dt, <<2, 1>>, <<Sym(1, 0), IMaxU>>))
 
 \* an axis / permutation entry at the edge of the 64-bit range is out of range for every tensor
 ExtremeAxisCases(shape) ==
@@ -154,7 +159,7 @@ Emit ==
         [] st.fam = "slicex"    -> SliceExtremeCases(st.shape) /\ SliceInvalidCases(st.shape)
         [] st.fam = "gather"    -> (st.axis \in (-Len(st.shape) - 1)..Len(st.shape) => GatherCases(st.shape, st.axis))
         [] st.fam = "expand"    -> ExpandCases(st.shape, st.target)
-        [] st.fam = "dtypes"    -> DtypeCases(st.dt) /\ (st.dt = "f32" => LongCases)
+        [] st.fam = "dtypes"    -> DtypeCases(st.dt) /\ (st.dt = "f32" => LongCases /\ SpecialValueCases)
    /\ st' = [st EXCEPT !.done = TRUE]
 Next == Emit
 Spec == Init /\ [][Next]_st
